@@ -589,9 +589,20 @@ def judge_eig(inp, obs, lr):
         mv = C.dec(r0["ok"], f2).astype(complex).reshape(-1, m)
         pv = asarr(obs["vec"], (-1, m), True)
         if not same(pv, mv, 1e-12):
-            # the selected eigenvector differs from the model's selection: does the property itself fail?
-            Pm = C.dec(inp["units"], inp["field"]).astype(complex)
             vals = asarr(obs["vals"], (nu, m), True)
+            Vobs = asarr(obs["V"], (nu, m, m), True)
+            # a different choice among the eigenvectors whose eigenvalue passes the mask is still what the
+            # property asks for (which one is reported is not part of the property): accept it
+            ev = None if inp["eigenvalue"] is None else float(F(inp["eigenvalue"]))
+            def acceptable(u):
+                mask = np.ones(m, dtype=bool) if ev is None else np.isclose(vals[u], ev)
+                if not mask.any():
+                    return bool(np.max(np.abs(pv[u])) == 0)
+                return any(mask[l] and same(pv[u], Vobs[u][:, l], 1e-12) for l in range(m))
+            if all(acceptable(u) for u in range(nu)):
+                return None
+            # otherwise: does the property itself fail?
+            Pm = C.dec(inp["units"], inp["field"]).astype(complex)
             img = asarr(obs["image"], (-1, m), True)
             bad = False
             for u in range(nu):
